@@ -169,8 +169,9 @@ class ProgressIndicator(object):
         Overwrites a previous message to the output.
         """
         if self._io.supports_ansi():
-            self._io.write("\x0D\x1B[2K")
-            self._io.write(message)
+            # A single write, so that the frames written by the spinner thread
+            # and by the caller's thread can not be mixed
+            self._io.write("\x0D\x1B[2K" + message)
         else:
             self._io.write_line(message)
 
